@@ -366,7 +366,7 @@ def par_task(item: tuple[int, str]) -> dict[str, Any]:
         "interleavings": [],
     }
     if r["violations"]:
-        out["violations"] = [{"scenario": scn, "plan": v["plan"], "violation": v["violation"], "par": True} for v in r["violations"]]
+        out["violations"] = [{"scenario": scn, "plan": v["plan"], "violation": v["violation"], "par": True, "family": "par", "k": k} for v in r["violations"]]
     return out
 
 
@@ -429,7 +429,7 @@ def task(item: tuple[int, str]) -> dict[str, Any]:
     if k % 20 == 0:
         out["sample"] = {"config": scn["config"], "clock": scn["clock"], "steps": scn["steps"][:2], "modules": sorted(scn["project"]["mods"])}
     if r["violations"]:
-        out["violations"] = [{"scenario": scn, "plan": v["plan"], "violation": v["violation"]} for v in r["violations"]]
+        out["violations"] = [{"scenario": scn, "plan": v["plan"], "violation": v["violation"], "family": "seq", "k": k} for v in r["violations"]]
     return out
 
 
@@ -477,7 +477,7 @@ def finalise_task(v: dict[str, Any]) -> dict[str, Any]:
         hit = [x for x in r["violations"] if x["violation"]["kind"] == v["violation"]["kind"]]
         if not hit:
             raise kit.HarnessError(f"parallel-leg violation did not reproduce: {v['plan']}")
-        return {"scenario": v["scenario"], "plan": v["plan"], "violation": hit[0]["violation"], "par": True}
+        return {"scenario": v["scenario"], "plan": v["plan"], "violation": hit[0]["violation"], "par": True, "family": "par", "k": v.get("k")}
     small = minimise(v)
     r = evaluate(small["scenario"], "fin", only_plan=small["plan"])
     hit = [x for x in r["violations"] if x["violation"]["kind"] == v["violation"]["kind"]]
@@ -487,7 +487,7 @@ def finalise_task(v: dict[str, Any]) -> dict[str, Any]:
         if not hit:
             raise kit.HarnessError(f"violation did not reproduce: {v['plan']} {v['violation']}")
         small = v
-    return {"scenario": small["scenario"], "plan": small["plan"], "violation": hit[0]["violation"]}
+    return {"scenario": small["scenario"], "plan": small["plan"], "violation": hit[0]["violation"], "family": "seq", "k": v.get("k")}
 
 
 def match_known(cls: str, v: dict[str, Any], known: list[dict[str, Any]]) -> dict[str, Any] | None:
@@ -545,17 +545,17 @@ def run(tier: str) -> int:
         rep.add_result(r)
         for v in r.get("violations", []):
             by_class.setdefault(plan_class(v["plan"], v["violation"]) + ":" + v["scenario"]["config"]["store"], []).append(v)
-    unknown = []
+    unknown: dict[str, list[dict[str, Any]]] = {}
     for cls, vs in sorted(by_class.items()):
-        e = match_known(cls, vs[0], known)
-        if e is not None:
-            rep.known_finding(f"{e['what']} (class {cls}, occurrences this run: {len(vs)})")
-        else:
-            unknown.append(vs[0])
-    finals, _ = kit.run_pool(finalise_task, unknown)
-    for v in finals:
+        for v in vs:
+            e = kit.match_member(v, known) or match_known(cls, v, known)
+            if e is not None:
+                rep.known_finding(f"{e['what']} (class {cls})")
+                continue
+            unknown.setdefault(cls, []).append(v)
+    for v in kit.finalise_classes(finalise_task, unknown):
         path = kit.write_replay(PROP, {"engine": "histsim+faults", **v})
-        rep.violation(path, plan_class(v["plan"], v["violation"]) + " store=" + v["scenario"]["config"]["store"])
+        rep.violation(path, f"{v['cls']} members={v['members'][:10]}")
     rep.exhaustive = skipped == 0
     rep.extra["exhaustive_note"] = "per scenario, all crash positions / single-write failures / record-kind failures are enumerated; scenarios and failure subsets are sampled"
     rep.extra["skipped_for_budget"] = skipped
